@@ -27,7 +27,7 @@ type NodeSpec struct {
 // Event is something the scenario does at a given time after Start.
 type Event struct {
 	AtMs   int    `json:"at_ms"`
-	Kind   string `json:"kind"`             // extend | reorg | getblock | disconnect
+	Kind   string `json:"kind"`             // extend | reorg | getblock | disconnect | leave (disconnect and refuse redials for good)
 	N      int    `json:"n,omitempty"`      // extend: blocks; reorg: extra blocks over the replaced ones
 	Depth  int    `json:"depth,omitempty"`  // reorg: blocks replaced
 	Height int    `json:"height,omitempty"` // getblock: height (negative = from tip)
@@ -241,6 +241,14 @@ func RunScenario(s *Scenario, work string) *Result {
 		case "disconnect":
 			if ev.Node >= 1 && ev.Node <= nNodes {
 				nt.Nodes()[ev.Node-1].DisconnectAll()
+			}
+		case "leave":
+			if ev.Node >= 1 && ev.Node <= nNodes {
+				n := nt.Nodes()[ev.Node-1]
+				b := n.Behaviour()
+				b.RefuseDial = true
+				n.SetBehaviour(b)
+				n.DisconnectAll()
 			}
 		case "getblock":
 			h := ev.Height
